@@ -164,7 +164,7 @@ WITNESSES = [
     {"id": "c02-csync-order", "rule": "R-02.1", "file": "dns/rdtypes/ANY/CSYNC.py", "expect": "fires",
      "old": "        file.write(struct.pack(\"!IH\", self.serial, self.flags))", "new": "        file.write(struct.pack(\"!HI\", self.flags, self.serial))"},
     {"id": "c02-svcb-param-len8", "rule": "R-02.1", "file": "dns/rdtypes/svcbbase.py", "expect": "fires",
-     "old": "            with dns.renderer.prefixed_length(file, 2):\n                if value is not None:", "new": "            with dns.renderer.prefixed_length(file, 1):\n                if value is not None:"},
+     "old": "            with dns.renderer.prefixed_length(file, 2):\n                # Note", "new": "            with dns.renderer.prefixed_length(file, 1):\n                # Note"},
     {"id": "c02-bitmap-window-u16", "rule": "R-02.1", "file": "dns/rdtypes/util.py", "expect": "fires",
      "old": "            window = parser.get_uint8()\n            bitmap = parser.get_counted_bytes()", "new": "            window = parser.get_uint16()\n            bitmap = parser.get_counted_bytes()"},
     {"id": "c02-cookie-arm-mismatch", "rule": "R-02.1", "file": "dns/edns.py", "expect": "fires",
@@ -172,7 +172,7 @@ WITNESSES = [
     {"id": "c02-twin-local-pack", "rule": "R-02.1", "file": "dns/rdtypes/IN/SRV.py", "expect": "silent",
      "old": "        three_ints = struct.pack(\"!HHH\", self.priority, self.weight, self.port)\n        file.write(three_ints)", "new": "        file.write(struct.pack(\"!HHH\", self.priority, self.weight, self.port))"},
     {"id": "c02-twin-reader-individual-gets", "rule": "R-02.1", "file": "dns/rdtypes/IN/SRV.py", "expect": "silent",
-     "old": "        (priority, weight, port) = parser.get_struct(\"!HHH\")", "new": "        priority = parser.get_uint16()\n        weight = parser.get_uint16()\n        port = parser.get_uint16()"},
+     "old": "        priority, weight, port = parser.get_struct(\"!HHH\")", "new": "        priority = parser.get_uint16()\n        weight = parser.get_uint16()\n        port = parser.get_uint16()"},
     {"id": "c02-wks-address-3", "rule": "R-02.1", "file": "dns/rdtypes/IN/WKS.py", "expect": "fires",
      "old": "        address = parser.get_bytes(4)", "new": "        address = parser.get_bytes(3)"},
 ]
